@@ -14,8 +14,9 @@ import (
 
 type pcDefTable struct {
 	defs map[string]string          // pc!N / c!N ... -> defining term text
-	memo map[string]map[string]bool // symbol -> literal set
+	memo map[string]map[string]bool // symbol|polarity -> literal set
 	mu   sync.RWMutex
+	memoMu sync.Mutex
 }
 
 // pcDefs collects the definitions `(assert (= sym term))` of Boolean helper
@@ -107,10 +108,31 @@ func (t *pcDefTable) collect(term string, pol bool, out map[string]bool, depth i
 		return
 	}
 	if d, ok := t.defs[term]; ok {
-		if pol {
-			t.collect(d, true, out, depth+1)
-		} else if !strings.HasPrefix(strings.TrimSpace(d), "(and ") {
-			t.collect(d, false, out, depth+1)
+		// the literal set of a defined symbol is computed once: a path condition
+		// after k merges refers to its predecessors twice per merge, and
+		// re-expanding them is exponential in k
+		key := term + "|+"
+		if !pol {
+			key = term + "|-"
+		}
+		t.memoMu.Lock()
+		m, have := t.memo[key]
+		t.memoMu.Unlock()
+		if !have {
+			m = map[string]bool{}
+			if pol {
+				t.collect(d, true, m, depth+1)
+			} else if !strings.HasPrefix(strings.TrimSpace(d), "(and ") {
+				t.collect(d, false, m, depth+1)
+			}
+			if depth < 100 {
+				t.memoMu.Lock()
+				t.memo[key] = m
+				t.memoMu.Unlock()
+			}
+		}
+		for k, p := range m {
+			t.put(k, p, out)
 		}
 		// also record the symbol itself
 		t.put(term, pol, out)
